@@ -101,6 +101,30 @@ func checkC20(c *Ctx, r *Report) {
 		}
 		_, dels := pendStores(fn)
 		pbs := listCalls(fn, "PushBack")
+		// or through a method of the queue that does nothing but append its argument
+		// to the back of the ready list (Add)
+		for _, cs := range callsIn(fn) {
+			h := cs.Instr.Common().StaticCallee()
+			if h == nil || h == fn || recvTypeName(h) != pkgAQ+".QueueImpl" || len(h.Blocks) == 0 || len(h.Params) != 2 {
+				continue
+			}
+			if a := cs.Instr.Common().Args; len(a) != 2 || a[0] != ssa.Value(fn.Params[0]) || a[1] != ssa.Value(fn.Params[1]) {
+				continue
+			}
+			hs, hd := pendStores(h)
+			hp := listCalls(h, "PushBack")
+			if len(hs) == 0 && len(hd) == 0 && len(hp) == 1 && mentions(hp[0].Instr.Common().Args[1], func(v ssa.Value) bool { return v == ssa.Value(h.Params[1]) }, 3) {
+				always := true
+				for _, ret := range returnsOf(h) {
+					if !precedes(hp[0].Instr, ret) {
+						always = false
+					}
+				}
+				if always {
+					pbs = append(pbs, cs)
+				}
+			}
+		}
 		if len(pbs) == 0 {
 			r.Bad(r1, fn, "Ready", nil, "Ready never re-enqueues the torrent")
 		}
